@@ -79,6 +79,7 @@ impl CanonicalRequest {
 //@ end
 
 //@ fn canonical.rs impl CanonicalRequest :: canonical_request
+//@ hideutf8
 //@ props C08 C01 C11 C17
 //@ ret r
 //@ replace 1 `values.iter().enumerate()` => `slice_enumerate(values)`
